@@ -244,6 +244,7 @@ func main() {
 		bkWindow(light, scratch, "seq.before_cache", l)
 		bkWindow(light, scratch, "seq.before_broadcast", l)
 		bkBytes(light, scratch, l+4)
+		bkEtcd(light, rnd.Fork(), scratch, 5*l+15)
 	}
 	ringCases(light, rnd.Fork(), args.Tier)
 	hubCases(light, rnd.Fork(), args.Tier)
@@ -263,6 +264,7 @@ func main() {
 		for _, l := range []int{2, 8} {
 			bkMulti(light, br, scratch, l)
 		}
+		bkEtcd(light, br, scratch, 16+i)
 	}
 	// concurrent stress of the ring and of the backend's event cache (probabilistic; failures are ImplFailures)
 	sd := 100 * time.Millisecond
